@@ -145,6 +145,9 @@ let () =
                      (* label: the model's own error code of this operation (0 = the model succeeds) *)
                      let ec = if (fi <> [] || fm <> []) && (prop = 5 || prop = 8 || prop = 17)
                               then ".e" ^ string_of_z (step_err !model_prev op) else "" in
+                     if prop = 4 && fi <> [] && Sys.getenv_opt "DRIVER_DEBUG" <> None then
+                       List.iter (fun l -> Printf.printf "DETAIL %s step=%d %s\n" !hid !stepno (line_to_string l))
+                         (c04_detail (with_ctx !model_prev ip) op is);
                      List.iter (fun code ->
                        Printf.printf "PROPFAIL impl %s step=%d sig=C%02d.%s%s\n" !hid !stepno prop (string_of_z code) ec) fi;
                      List.iter (fun code ->
